@@ -211,6 +211,21 @@ fn main() {
       }
       h::util::write_json(&args[3], &json!({"runs": beh.len(), "steps": steps, "with_issues": outs.len(), "outcomes": outs.into_iter().take(100).collect::<Vec<_>>()}));
     }
+    "egress" => {
+      // vh egress <behaviours.jsonl> <out.json> [--perturb]
+      let beh: Vec<h::egress::Behaviour> = h::util::read_jsonl(&args[2]);
+      let perturb = args.iter().any(|a| a == "--perturb");
+      let mut outs = Vec::new();
+      let mut steps = 0usize;
+      for (i, b) in beh.iter().enumerate() {
+        steps += b.steps.len();
+        let o = h::egress::run(i, b, perturb);
+        if !o.issues.is_empty() {
+          outs.push(serde_json::to_value(&o).unwrap());
+        }
+      }
+      h::util::write_json(&args[3], &json!({"runs": beh.len(), "steps": steps, "with_issues": outs.len(), "outcomes": outs.into_iter().take(100).collect::<Vec<_>>()}));
+    }
     "sec" => {
       // vh sec <behaviours.jsonl> <out.json> [--perturb]
       let beh: Vec<h::sec::Behaviour> = h::util::read_jsonl(&args[2]);
